@@ -4,6 +4,7 @@ CONSTANTS
   Home <- MCHome
   InitSeq <- MCInit
   InitTok <- MCInitTok
+  InitRaw = {}
   HasLF0 = TRUE
   HasAT0 = FALSE
   Slack = 2
